@@ -94,6 +94,7 @@ type Exec struct {
 	reachLabels map[string]*Term
 	notes       []string
 	permute     bool
+	entryHooks  map[*ssa.Function]func(fr *Frame)
 	scenarioMeta map[string]interface{}
 }
 
@@ -272,6 +273,12 @@ func (ex *Exec) execRegion(fr *Frame, L *Loop) {
 			continue
 		}
 		ex.execBlock(fr, b)
+		if L == nil && b == fr.fn.Blocks[0] && ex.entryHooks != nil {
+			if h, ok := ex.entryHooks[fr.fn]; ok {
+				delete(ex.entryHooks, fr.fn)
+				h(fr)
+			}
+		}
 	}
 }
 
